@@ -53,7 +53,7 @@ pub fn spec() -> Spec<Case> {
         rule: "stateful histories (3-14 ops) over 1-3 small files and up to 4 branches: human/AI edits (R1: unique-token lines), commits, branch/switch (clean or carrying work), rebase {plain, --onto, -i reorder/squash/fixup/drop/edit+amend} with generated conflict resolutions (ours/theirs/both/hand-written/abort), cherry-pick (single, range, -n), amend, merge --squash, reset --soft/--mixed + recommit, stash/pop/apply, and must-not-change forms (abort, rebase refused on a dirty tree, commit --dry-run, read-only commands). Oracles: before/after blame relation per op (what was AI(S) and still exists is AI(S); what becomes AI must be right by the content-addressed model), the C01 commit oracle on every created commit, source-note carry-over for cherry-pick/squash, byte-identical notes list + pending-state digest across must-not-change ops. non-trivial = >=1 executed preserving op while AI attribution was pending or committed, in a history of >=3 commits; distinct by case hash".into(),
         cases_quick: 224,
         cases_thorough: 4000,
-        shrink_iters: 80,
+        shrink_iters: 30,
         workers: 14,
         strategy: strategy().sboxed(),
         run,
